@@ -36,3 +36,12 @@ bool verif_isequal_num(nm_size_t a, nm_size_t b) { return nm::utils::isequal(a,b
 bool verif_isequal_int(int a, int b) { return nm::utils::isequal(a,b); }
 bool verif_isclose_fv(fv_t a, fv_t b, float eps) { return nm::utils::isclose(a,b,eps); }
 bool verif_isclose_num(float a, float b, float eps) { return nm::utils::isclose(a,b,eps); }
+
+// ---- either (std::variant) operands: compared alternative-by-alternative. The either is built inside the wrapper from plain
+// components (std::variant's layout is not the layout of the C model, so it cannot be passed by value into the native replay)
+using e_il_t = nmtools_either<int,long>;
+static inline e_il_t verif_mk_e(bool right, int l, long r) { return right ? e_il_t{r} : e_il_t{l}; }
+bool verif_isequal_either_num(bool a_right, int al, long ar, long b) { return nmtools::utils::isequal(verif_mk_e(a_right,al,ar), b); }
+bool verif_isequal_num_either(long a, bool b_right, int bl, long br) { return nmtools::utils::isequal(a, verif_mk_e(b_right,bl,br)); }
+bool verif_isequal_either_either(bool a_right, int al, long ar, bool b_right, int bl, long br)
+{ return nmtools::utils::isequal(verif_mk_e(a_right,al,ar), verif_mk_e(b_right,bl,br)); }
